@@ -152,16 +152,27 @@ Proof.
   split; simpl; [apply SP_set_tx; exact A|auto].
 Qed.
 
+Lemma end_tx_inv_t : forall t st, SP (fun _ => objinvb t) st -> wf (slog st) -> Inv (end_tx st).
+Proof.
+  intros t st H1 H2. unfold end_tx.
+  destruct (pass_spec (fun _ => objinvb t) (fun _ => objinvb None) (fun _ => end_tx_obj) st H1) as [A B].
+  { intros k o Hp. split; [|reflexivity]. eapply end_tx_obj_ok; eauto. }
+  split; simpl; [apply SP_set_tx; exact A|auto].
+Qed.
+
+(* expunge_all detaches what is in the identity map, what is pending and the deleted-state members of the
+   transaction; the latter keep their transaction._deleted entry until the transaction object goes (end_tx) *)
 Lemma close_obj_ok : forall t o, objinvb t o = true ->
-  objinvb t (fst (close_obj o)) = true /\ wfob (snd (close_obj o)) = true.
+  objinvb (Some true) (fst (close_obj (match t with None => false | _ => true end) o)) = true /\
+  wfob (snd (close_obj (match t with None => false | _ => true end) o)) = true.
 Proof. intros t o. destruct t as [[]|]; obj_cases. Qed.
 
 Lemma do_close_inv : forall st, Inv st -> Inv (fst (do_close st)).
 Proof.
-  intros st [H1 H2]. unfold do_close. simpl.
-  apply end_tx_inv.
-  - rewrite app_all_tx. apply (pass_spec (fun _ => objinvb (tx st)) (fun _ => objinvb (tx st))); [exact H1|].
+  intros st [H1 H2]. unfold do_close. simpl. rewrite has_tx_match.
+  apply (end_tx_inv_t (Some true)).
+  - apply (pass_spec (fun _ => objinvb (tx st)) (fun _ => objinvb (Some true))); [exact H1|].
     intros k o Hp. apply close_obj_ok; auto.
-  - apply (pass_spec (fun _ => objinvb (tx st)) (fun _ => objinvb (tx st))); [exact H1| |exact H2].
+  - apply (pass_spec (fun _ => objinvb (tx st)) (fun _ => objinvb (Some true))); [exact H1| |exact H2].
     intros k o Hp. apply close_obj_ok; auto.
 Qed.
